@@ -156,6 +156,11 @@ impl NISP2Commitments {
             d_2,
         } = self;
 
+        // one response per hidden attribute
+        if d.len() != unrevealed_message_indexes.len() {
+            return false;
+        }
+
         let inv_C1 = Integer::from(
             c1.value
                 .pow_mod_ref(&(-Integer::from(1) * challenge), n1)
